@@ -294,8 +294,8 @@ def textRows {α} (c : Codec α) (f : OField α) (extend : Bool) : List (List α
 
 def allSame (us : List String) : Bool := us.all fun u => u == us.getD 0 ""
 
-/-- `Field._to_ovf(filename, representation, extend_scalar)` -/
-def toOvf {α} (c : Codec α) (f : OField α) (rep : String) (extend : Bool) : M (OvfFile α) :=
+/-- body of `_to_ovf` once `extend_scalar` has been rebound (see `toOvf`) -/
+def toOvfE {α} (c : Codec α) (f : OField α) (rep : String) (extend : Bool) : M (OvfFile α) :=
   if f.mesh.region.ndim ≠ 3 then .error .runtime
   else match valueLabels f extend with
   | .error e => .error e
@@ -314,6 +314,12 @@ def toOvf {α} (c : Codec α) (f : OField α) (rep : String) (extend : Bool) : M
                 body := .bin (c.enc true (repWidth rep) (c.magic (repWidth rep))
                   ++ ((chunked chunkSize vals).flatMap fun ch => ch.flatMap (c.enc true (repWidth rep)))
                   ++ 10 :: footerBytes rw) }
+
+/-- `Field._to_ovf(filename, representation, extend_scalar)`: extending to three components
+only applies to one-component fields (`extend_scalar = extend_scalar and self.nvdim == 1`);
+for every other field the option is ignored. -/
+def toOvf {α} (c : Codec α) (f : OField α) (rep : String) (extend : Bool) : M (OvfFile α) :=
+  toOvfE c f rep (extend && f.nvdim == 1)
 
 /-! ## Reader: `_from_ovf` -/
 
